@@ -214,14 +214,26 @@ def default_param_roles(body):
     """roles of parameters by type and position (never by name)"""
     roles = {}
     nw = 0
+    # trait bounds of the type parameters (`impl Trait` arguments are anonymous type parameters; a named
+    # `R: ReadLine` is the same thing)
+    bounds = {}
+    for pr in body.raw.get("preds", []) or []:
+        if ": " in pr:
+            lhs, rhs = pr.split(": ", 1)
+            bounds.setdefault(lhs.strip(), set()).add(rhs.strip().rsplit("::", 1)[-1].split("<")[0])
     for i in range(1, body.argc + 1):
         ty = body.lty(i)
-        if "impl ReadLine" in ty:
+        base = ty
+        for pre in ("&mut ", "&"):
+            if base.startswith(pre):
+                base = base[len(pre):]
+        bs = bounds.get(base, set())
+        if "impl ReadLine" in ty or "ReadLine" in bs:
             roles[i] = "IN"
-        elif "impl Write" in ty:
+        elif "impl Write" in ty or "Write" in bs:
             roles[i] = "OUT" if nw == 0 else "ERR"
             nw += 1
-        elif ty in ("T", "&mut T", "&T"):
+        elif ty in ("T", "&mut T", "&T") or ("State" in bs and base != "Self"):
             roles[i] = "STATE"
         elif ty == "usize":
             roles[i] = "LOC" if "LOC" not in roles.values() else "USIZE%d" % i
